@@ -362,8 +362,10 @@ theorem C02_revSuffixSet_find_eq_reference_closed {N : NFA} {cfg rcfg : Dfa.Conf
 dispatch over component oracles (prefilter, forward / reverse lazy DFA, Pike VM, bounded backtrackers, first-byte set).  The
 theorems are RELATIVE to the component contracts `MetaFind.OraclesOK` (prefilter never skips, forward DFA = end of the reference
 match, reverse DFA = least start and total, Pike VM / backtracker = reference, …) plus explicit hypotheses on the engine flags;
-each hypothesis has a machine-checked counter-model (`MetaFind.cex_*`), three of which reproduce on the real code (see the
-report of `Cx.Proofs.MetaFind`).  The `_closed` versions plug in the component MODELS (`Cx.Proofs.MetaFindInst`).  The check
+each hypothesis has a machine-checked counter-model (`MetaFind.cex_*`); the three that reproduced on the real code at commit
+83f9184 were repaired there (fffbd3b, ecab302, b09f397), the model follows, and they became `MetaFind.cex_*_fixed` witnesses:
+the UseBoundedBacktracker theorems need neither `AsciiTailOK` nor leftmost-first mode any more (see the report of
+`Cx.Proofs.MetaFind`).  The `_closed` versions plug in the component MODELS (`Cx.Proofs.MetaFindInst`).  The check
 replays the model with the real engine's flags, the real prefilter's answers and brute-force engine oracles against the real
 `Engine.FindIndicesAt` on every generated pattern that selects one of the four strategies. -/
 
@@ -411,18 +413,19 @@ theorem C02_findIndicesAdaptive_eq_reference {O : MetaFind.Oracles} {P : MetaFin
     MetaFind.findIndicesAdaptive O P h = ref h 0 ∧ MetaFind.findIndicesAdaptiveAt O P h at_ = ref h at_ :=
   ⟨MetaFind.findIndicesAdaptive_ok S hcov, MetaFind.findIndicesAdaptiveAt_ok S hcov hat⟩
 
-/-- UseBoundedBacktracker (leftmost-first mode): first-byte rejection, `CanHandle` fallbacks (two-pass search / Pike VM),
-    ASCII variant, slices, windows — under `SliceInv` (slicing at `at` keeps the reference), `AsciiTailOK` (the bytes the ASCII
-    check does not read are ASCII) and `WindowOK` (the windowed backtracker's hit is the reference's span) -/
+/-- UseBoundedBacktracker, BOTH modes (in leftmost-longest mode `ref` is the leftmost-longest reference, as for UseNFA):
+    first-byte rejection, `CanHandle` fallbacks (two-pass search in leftmost-first mode only — `!e.longest`, ecab302 — else
+    Pike VM), ASCII variant (the check reads the whole remaining input — fffbd3b — so no hypothesis about unread bytes; the
+    ASCII backtracker honours the mode — b09f397), slices, windows — under `SliceInv` (slicing at `at` keeps the reference)
+    and `WindowOK` (the windowed backtracker's hit is the reference's span; only when the two-pass fallback is not taken) -/
 theorem C02_findIndicesBoundedBacktracker_eq_reference {O : MetaFind.Oracles} {P : MetaFind.Params}
     {Mt : Bytes → Nat → Nat → Prop} {ref : Bytes → Nat → Option MetaFind.Span} {h : Bytes}
-    (S : MetaFind.OraclesOK O P Mt ref h) (hl : P.longest = false) {at_ : Nat} (hat : at_ ≤ h.size)
-    (hsl : P.hasBT = true → MetaFind.SliceInv ref h at_) (hta : P.hasAsciiBT = true → MetaFind.AsciiTailOK P h at_)
-    (hw : P.hasBT = true → (P.hasDFA && P.hasReverseDFA) = false → MetaFind.WindowOK O ref h at_) :
+    (S : MetaFind.OraclesOK O P Mt ref h) {at_ : Nat} (hat : at_ ≤ h.size)
+    (hsl : P.hasBT = true → MetaFind.SliceInv ref h at_)
+    (hw : P.hasBT = true → MetaFind.dfaFallback P = false → MetaFind.WindowOK O ref h at_) :
     MetaFind.findIndicesBT O P h = ref h 0 ∧ MetaFind.findIndicesBTAt O P h at_ = ref h at_ ∧
     MetaFind.findIndicesBTAtWithState O P h at_ = ref h at_ :=
-  ⟨MetaFind.findIndicesBT_ok S (Or.inl hl), MetaFind.findIndicesBTAt_ok S hl hat hsl hta,
-   MetaFind.findIndicesBTAtWithState_ok S hl hat hsl hta hw⟩
+  ⟨MetaFind.findIndicesBT_ok S, MetaFind.findIndicesBTAt_ok S hat hsl, MetaFind.findIndicesBTAtWithState_ok S hat hsl hw⟩
 
 /-- the dispatch: `FindIndices`, `FindIndicesAt`, `findIndicesAtWithState` for the four strategies -/
 theorem C02_metaFind_dispatch_eq_reference {O : MetaFind.Oracles} {P : MetaFind.Params} {Mt : Bytes → Nat → Nat → Prop}
